@@ -788,6 +788,23 @@ fn write_cases(t: Tier) -> Vec<WCase> {
 }
 
 thread_local! {
+    /// open the handle through a spelling of the path that is not clean (dir/zz/../name): what the handle
+    /// writes back to must be the file, whatever the path looked like when the handle was opened
+    static UNCLEAN_OPEN: std::cell::Cell<bool> = const { std::cell::Cell::new(false) };
+}
+
+fn open_spelling(p: &Path) -> PathBuf {
+    if UNCLEAN_OPEN.with(|x| x.get()) {
+        match (p.parent(), p.file_name()) {
+            (Some(d), Some(n)) => d.join("zz").join("..").join(n),
+            _ => p.to_path_buf(),
+        }
+    } else {
+        p.to_path_buf()
+    }
+}
+
+thread_local! {
     /// how the pre-existing file of a Memfs write-side case came to be at its path (0 written there, 1 moved there,
     /// 2 copied there from a moved file)
     static ROUTE: std::cell::Cell<u8> = const { std::cell::Cell::new(0) };
@@ -1031,8 +1048,8 @@ fn run_wcase<V: VirtualFileSystem>(mk: &dyn Fn() -> Wb<V>, c: &WCase, st: &mut W
 
     // handle form
     let opened = catch_unwind(AssertUnwindSafe(|| match c.kind {
-        Kind::Write => b.vfs.write(&b.path),
-        Kind::Append => b.vfs.append(&b.path),
+        Kind::Write => b.vfs.write(open_spelling(&b.path)),
+        Kind::Append => b.vfs.append(open_spelling(&b.path)),
     }));
     st.calls += 1;
     let mut h = match opened {
@@ -1189,6 +1206,15 @@ fn run_wcase_memfs(c: &WCase, st: &mut WStats) -> Option<(String, String)> {
         if let Some((sig, detail)) = res {
             let how = ["", " (file moved to its path)", " (file copied to its path from a moved file)"][r as usize];
             return Some((format!("{}{}", sig, how), format!("{}{}", detail, how)));
+        }
+    }
+    // once more with the handle opened through an unclean spelling of the path
+    if c.conv.is_none() {
+        UNCLEAN_OPEN.with(|x| x.set(true));
+        let res = run_wcase(&mk, c, st);
+        UNCLEAN_OPEN.with(|x| x.set(false));
+        if let Some((sig, detail)) = res {
+            return Some((format!("{} (handle opened through an unclean spelling of the path)", sig), format!("{} (handle opened through dir/zz/../name)", detail)));
         }
     }
     None
